@@ -47,6 +47,11 @@ CHECKS = {
             "For every message type of every receiver (backend request server, frontend reply paths, frontend request server, Backend/GPU proxy ack paths) every 2-split position (all positions for short messages, boundary neighbourhoods + stride for long ones), byte-by-byte delivery and 3-splits are delivered by a raw peer that writes the next segment only when the receiver starts waiting; every cut offset followed by close; for every sender every single short-write position, pairs and EAGAIN/EINTR patterns injected at sendmsg. Oracle: same handler log, reply bytes and result as unsplit delivery; bytes exactly once and in order with descriptors only at offset 0; truncation = error, clean Disconnected only at offset 0, nothing dispatched, no indefinite wait.",
             "Trusted: kernel unix-socket semantics for the segment boundaries; the unsplit run of the same message is the reference. Random segmentations with delays are not claimed.",
             "DESIGN.md 4/C08"),
+    "C18": ("model_checking", "lattice",
+            "exhaustive enumeration of all request histories up to length 3 x handler results x REPLY_ACK on the real Backend proxy<->FrontendReqHandler pair in coop mode, plus independent decoding of the acknowledgement bytes by a raw peer",
+            "The five backend-initiated request kinds are issued through the real proxy to the real frontend request server for the UUID / mapping-descriptor lattice, every handler result class (0, non-zero values, six errno values, error without errno), REPLY_ACK on/off and all histories of length 1-2 (length 3 over a reduced alphabet; all at thorough) that mix failing and succeeding requests. Oracle: exactly one handler call with equal arguments and the same file; with REPLY_ACK the proxy succeeds iff the handler returned 0 and each call's status belongs to its own request (a missing or stray ack would shift it; the socket must be empty at the end); without REPLY_ACK nothing is written back or awaited. The ack value (value / negated errno) is decoded from the wire by an independent raw peer for every (kind, result, REPLY_ACK, NEED_REPLY).",
+            "Trusted: the independent codec; single-threaded coop driver. Histories longer than 3 are outside the bound.",
+            "DESIGN.md 4/C18"),
     "C19": ("exploration", "lattice",
             "exhaustive enumeration of every kernel-backend operation x argument lattice under ioctl/open64 interposition, compared with a gcc-compiled UAPI reference",
             "Every trait operation of the kernel-vhost, vhost-net, vhost-vsock and vhost-vDPA backends is executed on an intercepted dummy device for the whole argument lattice (queue indexes, 64-bit values, region tables of 0..=257 entries, config buffers of 0..=256 bytes, all IOTLB type x permission pairs in v1 and v2, 3 guest memory layouts, all ring-size/max/log-flag combinations); the captured (request, argument bytes) are compared with numbers, sizes and offsets computed by gcc from <linux/vhost.h>, the value returned with what the scripted kernel wrote back. The operations are single, non-interacting calls, so per-operation exhaustive input enumeration is the right level.",
